@@ -40,6 +40,8 @@ var kinds = []string{"simulate", "checktx", "query", "customquery", "simulate", 
 
 const chainID = "verif"
 
+const baseAppStake = int64(10000000000)
+
 var childEnv = []string{"GOMAXPROCS=2"}
 
 func b01(b bool) int {
@@ -64,7 +66,7 @@ func boot() *env {
 	o.Mutate = func(g *chain.Genesis) {
 		g.Nodes.Params.SessionBlockFrequency = 4 // sessions of 4 blocks: claims become valid within a history
 		for i := range g.Apps.Applications {
-			g.Apps.Applications[i].StakedTokens = sdk.NewInt(10000000000) // max relays = 10000
+			g.Apps.Applications[i].StakedTokens = sdk.NewInt(baseAppStake) // max relays = 10000
 		}
 	}
 	g := chain.BuildGenesis(o)
@@ -83,7 +85,7 @@ func freshSend(from chain.Key, to sdk.Address, amt int64, entropy int64) []byte 
 
 // simulate runs Query("app/simulate") and decodes the embedded result code.
 func simulate(n *chain.Node, bz []byte) (uint32, string) {
-	res := n.App.Query(abci.RequestQuery{Path: "app/simulate", Data: bz})
+	res := n.App.Query(abci.RequestQuery{Path: "app/simulate", Data: bz, Height: n.Height}) // the height selects the tx codec
 	var r sdk.Result
 	if err := app.Codec().UnmarshalBinaryLengthPrefixed(res.Value, &r, n.Height); err != nil {
 		return 9999, "undecodable-result"
@@ -160,7 +162,8 @@ func (a *actor) emit(point string, desc string, code string, before map[string]s
 	if changed {
 		diff = strings.Join(chainx.DiffKeys(before, after, 3), ",")
 	}
-	fmt.Printf("act %s %s %s => code=%s changed=%d %s diff=%s\n", a.kind, point, desc, code, b01(changed), marks, diff)
+	fmt.Printf("act %s %s %s => code=%s changed=%d %s diff=%s cache=%s store=%s\n", a.kind, point, desc, code, b01(changed), marks, diff,
+		chainx.AppCacheDump(a.e.run.N), chainx.AppStoreDump(a.e.run.N))
 	a.nActs++
 }
 
@@ -254,7 +257,7 @@ func (a *actor) act(point string, i int) {
 			var to sdk.Address
 			fee0 := chainx.Balance(n, a.e.feeAddr)
 			to0 := ""
-			if r.Chance(2, 3) {
+			if r.Chance(1, 3) {
 				from := a.e.w.Accts[r.Intn(4)]
 				to = a.e.w.Accts[r.Intn(4)].Addr
 				if to.Equals(from.Addr) {
@@ -262,7 +265,27 @@ func (a *actor) act(point string, i int) {
 				}
 				to0 = chainx.Balance(n, to)
 				bz, desc = freshSend(from, to, int64(1+r.Intn(100000)), a.nextEnt()), "send-valid"
-			} else if r.Chance(1, 3) {
+			} else if r.Chance(1, 2) {
+				// transactions that are valid against the current state and write records kept in node-local caches
+				ent := a.nextEnt()
+				switch r.Intn(4) {
+				case 0, 1:
+					k := a.e.w.Apps[r.Intn(len(a.e.w.Apps))]
+					amt := baseAppStake + int64(6+r.Intn(4))*1000000
+					bz, desc = chain.SignTx(chainID, k, chain.MsgAppStake(k, amt, []string{chain.ChainHash}), chain.DefaultFee, ent, ""), fmt.Sprintf("appedit:%d", amt-baseAppStake)
+				case 2:
+					k := a.e.w.Accts[r.Intn(len(a.e.w.Accts))]
+					bz, desc = chain.SignTx(chainID, k, chain.MsgAppStake(k, baseAppStake, []string{chain.ChainHash}), chain.DefaultFee, ent, ""), "appstake-new"
+				default:
+					ks := append(append([]chain.Key{}, a.e.w.Vals...), a.e.w.Servs...)
+					k := ks[r.Intn(len(ks))]
+					if r.Bool() {
+						bz, desc = chain.SignTx(chainID, k, chain.MsgNodeStake(k, a.e.w.MinStake*5, []string{chain.ChainHash}, "https://n.example:443", k.Addr, nil), chain.DefaultFee, ent, ""), "nodeedit-bin"
+					} else {
+						bz, desc = chain.SignTx(chainID, k, chain.MsgNodeUnjail(k.Addr, k.Addr), chain.DefaultFee, ent, ""), "unjail"
+					}
+				}
+			} else if r.Chance(1, 2) {
 				// a claim: its handler needs ctx.PrevCtx (LoadLazyVersion on the context's multistore)
 				nodes := append(append([]chain.Key{}, a.e.w.Vals...), a.e.w.Servs...)
 				from := nodes[r.Intn(len(nodes))]
@@ -308,6 +331,13 @@ func genHistory(hseed uint64, blocks int) *chainx.History {
 		for _, d := range descs {
 			ks = append(ks, d.Kind)
 			ds = append(ds, d.Desc)
+		}
+		if bi+1 >= 3 && r.Chance(1, 2) { // application edit-stake around the current stake: its outcome depends on the stored record
+			k := w.Apps[r.Intn(len(w.Apps))]
+			amt := baseAppStake + int64(r.Intn(6))*1000000
+			b.Txs = append(b.Txs, chain.SignTx(chainID, k, chain.MsgAppStake(k, amt, []string{chain.ChainHash}), chain.DefaultFee, 600000000+int64(bi), ""))
+			ks = append(ks, "appedit")
+			ds = append(ds, fmt.Sprintf("appedit %s %d", k.Addr, amt))
 		}
 		h.AddBlock(b, ks)
 		h.SetDescs(ds)
